@@ -75,6 +75,56 @@ def sig_idx(toks, lo, hi):
     return [i for i in range(lo, hi) if toks[i].kind not in WS]
 
 
+def alpha_normalised(toks, lo, hi):
+    """Significant tokens of toks[lo:hi] with `let`-bound simple locals renamed to $0, $1, ... in binding order (a
+    binding takes effect after the `;` that ends its statement, so `let x = f(x);` reads the older x).  Comments and
+    white space are dropped.  Two texts with the same result differ only in comments, layout and the names of such
+    locals; a rename that captures a parameter or field name changes the result."""
+    idx = sig_idx(toks, lo, hi)
+    out = []
+    env = {}
+    pending = []      # (depth, name, placeholder)
+    depth = 0
+    n = 0
+    k = 0
+    while k < len(idx):
+        t = toks[idx[k]]
+        if t.text in "([{" and t.kind == "punct":
+            depth += 1
+        elif t.text in ")]}" and t.kind == "punct":
+            depth -= 1
+            for p in [p for p in pending if p[0] > depth]:
+                pending.remove(p)
+                env[p[1]] = p[2]
+        elif t.text == ";" and t.kind == "punct":
+            for p in [p for p in pending if p[0] >= depth]:
+                pending.remove(p)
+                env[p[1]] = p[2]
+        if t.kind == "id" and t.text == "let":
+            j = k + 1
+            if j < len(idx) and toks[idx[j]].text == "mut":
+                j += 1
+            if j < len(idx) and toks[idx[j]].kind == "id" and j + 1 < len(idx) and toks[idx[j + 1]].text in ("=", ":", ";") \
+                    and toks[idx[j]].text not in ("_",) and not toks[idx[j]].text[0].isupper():
+                out.extend(toks[idx[q]].text for q in range(k, j))
+                ph = "$%d" % n
+                n += 1
+                pending.append((depth, toks[idx[j]].text, ph))
+                out.append(ph)
+                k = j + 1
+                continue
+        if t.kind == "id" and t.text in env:
+            prev = toks[idx[k - 1]].text if k > 0 else ""
+            nxt = toks[idx[k + 1]].text if k + 1 < len(idx) else ""
+            if prev not in (".", "::") and nxt not in ("::", "!"):
+                out.append(env[t.text])
+                k += 1
+                continue
+        out.append(t.text)
+        k += 1
+    return out
+
+
 def next_sig(toks, i, hi):
     while i < hi and toks[i].kind in WS:
         i += 1
@@ -848,7 +898,7 @@ class Generator:
             self.unverified.append({"file": relfile, "item": fnpath, "reason": blk.stub})
         elif blk is not None and blk.stub:
             import hashlib
-            body_sha = hashlib.sha1(" ".join(toks[k].text for k in sig_idx(toks, it.a0, it.end)).encode()).hexdigest()[:16]
+            body_sha = hashlib.sha1(" ".join(alpha_normalised(toks, it.a0, it.end)).encode()).hexdigest()[:16]
             info["stub_sha"] = body_sha
             self.unverified.append({"file": relfile, "item": fnpath, "reason": "R-stub-body: " + blk.stub, "body_sha": body_sha})
         elif self.stub_all:
